@@ -57,41 +57,94 @@ func recordedFrames(files []*decFile) (n int, bad string) {
 	return n, ""
 }
 
-// ---------------------------------------------------------------- C05 wiring
+// ---------------------------------------------------------------- C05 / C06 wiring
 
+// burstStream: motion bursts separated by quiet gaps (hot pixel toggling).
+func burstStream(rng *vRNG, cam pCamera, n int, continuous bool) []*pFrame {
+	pat := make([]byte, 0, n)
+	for len(pat) < n {
+		if continuous {
+			pat = append(pat, 'm')
+			continue
+		}
+		q, m := rng.Range(cam.FPS, 4*cam.FPS), rng.Range(cam.FPS, 12*cam.FPS)
+		for i := 0; i < q; i++ {
+			pat = append(pat, 'f')
+		}
+		for i := 0; i < m; i++ {
+			pat = append(pat, 'm')
+		}
+	}
+	return c10Frames(cam, string(pat[:n]))
+}
+
+// TestVerif_C05Pipe (also a job of C06): the throttle as main.go wires it, with the real clock.
+//
+//	C05: frames in finished files <= bucket + 1.01*rate*T + 2, T an outer stopwatch (sound);
+//	C06: the processor cannot see the throttle, so its recordings are the unthrottled prediction;
+//	     every finished file must be a run of consecutive frames inside ONE predicted recording, and a
+//	     file that ends before that recording's end was cut by the throttle and must hold at least
+//	     (min-secs+preview-secs)*fps frames.
 func TestVerif_C05Pipe(t *testing.T) {
-	c := vStart(t, "C05", "TestVerif_C05Pipe")
+	prop := vEnv("VERIF_PROP", "C05")
+	if prop != "C06" {
+		prop = "C05"
+	}
+	c := vStart(t, prop, "TestVerif_C05Pipe")
 	defer c.Finish()
 	scratch := vEnv("VERIF_SCRATCH", t.TempDir())
-	n := c.N(6, 48)
+	n := c.N(8, 64)
 	for idx := int64(0); idx < n; idx++ {
 		if !c.Mine(idx) {
 			continue
 		}
 		rng := c.RNG(idx)
-		cam := leptonCamera("lepton3", 16, 12, 9)
+		fps := rng.PickInt(3, 9)
+		cam := leptonCamera("lepton3", 16, 12, fps)
 		cfg := basicConfig()
-		// min-secs >= 1 so that continuous motion keeps a recording open until the throttle cuts it
-		// (with min-secs = 0 every recording legitimately ends right after its trigger frame);
-		// preview-secs >= 1 because the wiring clause is about min+preview
-		cfg.MinSecs, cfg.PreviewSecs, cfg.MaxSecs = rng.Range(1, 2), rng.Range(1, 2), 250 // max-secs*fps exceeds the stream: no recording ends by itself
-		cfg.Motion = simpleMotion(1, 1)
-		bucketS := rng.Range(3, 5)
+		cfg.MinSecs, cfg.PreviewSecs = rng.Range(1, 2), rng.Range(1, 2)
+		continuous := idx%2 == 0
+		nf := 1500
+		if continuous {
+			// max-secs*fps exceeds the stream: no recording ends by itself, every finished file is a cut
+			cfg.MaxSecs = nf/fps + 50
+		} else {
+			// sometimes max-secs < min-secs + preview-secs (valid: only min <= max is required)
+			cfg.MaxSecs = rng.Range(cfg.MinSecs, cfg.MinSecs+cfg.PreviewSecs+2)
+		}
+		cfg.Motion = simpleMotion(rng.PickInt(1, fps, 2*fps), 1) // trigger-frames may exceed one second of frames
+		// the first eight cases pin the corner configurations (whatever the seed)
+		switch idx {
+		case 0, 2:
+			cfg.Motion.TriggerFrames = 2 * fps // continuous motion, trigger-frames worth two seconds
+		case 1, 6:
+			cfg.MinSecs, cfg.PreviewSecs = 2, 2
+			cfg.MaxSecs = 3 // max-secs < min-secs + preview-secs
+			cfg.Motion.TriggerFrames = 1
+		case 3:
+			cfg.MaxSecs = cfg.MinSecs
+			cfg.Motion.TriggerFrames = fps
+		case 4, 7:
+			cfg.Motion.TriggerFrames = 1
+		case 5:
+			cfg.MaxSecs = 20
+		}
+		minLen := (cfg.MinSecs + cfg.PreviewSecs) * fps
+		bucketS := cfg.MinSecs + cfg.PreviewSecs + rng.Range(1, 3)
 		refillMS := rng.PickInt(500, 1000, 2000)
 		cfg.Throttle, cfg.BucketSize, cfg.MinRefill = true, fmt.Sprintf("%ds", bucketS), fmt.Sprintf("%dms", refillMS)
-		nf := 1500
 		pace := 2 * time.Millisecond
-		frames := continuousMotionStream(cam, nf)
-		minLen := (cfg.MinSecs + cfg.PreviewSecs) * cam.FPS
-		B := bucketS * cam.FPS
+		frames := burstStream(rng, cam, nf, continuous)
+		B := bucketS * fps
 		rate := float64(minLen) / (float64(refillMS) / 1000)
 		c.Case(idx, func() interface{} {
-			return map[string]interface{}{"config": fmt.Sprintf("min=%d preview=%d fps=%d bucket=%ds min-refill=%dms (B=%d frames, minLen=%d, rate=%.1f/s)", cfg.MinSecs, cfg.PreviewSecs, cam.FPS, bucketS, refillMS, B, minLen, rate), "frames": nf, "pace": pace.String()}
+			return map[string]interface{}{"config": fmt.Sprintf("min=%d preview=%d max=%d trigger-frames=%d fps=%d bucket=%ds min-refill=%dms (B=%d frames, minLen=%d, rate=%.1f/s)", cfg.MinSecs, cfg.PreviewSecs, cfg.MaxSecs, cfg.Motion.TriggerFrames, fps, bucketS, refillMS, B, minLen, rate),
+				"frames": nf, "pace": pace.String(), "continuous_motion": continuous}
 		}, func() {
 			run := func(throttle bool) (int, []*decFile, time.Duration, string) {
 				cc := *cfg
 				cc.Throttle = throttle
-				if !throttle {
+				if !throttle && continuous {
 					cc.MaxSecs = 10 // so that the unthrottled run leaves finished files to count
 				}
 				r, err := prepareConn(scratch, &cc, cam)
@@ -113,18 +166,47 @@ func TestVerif_C05Pipe(t *testing.T) {
 				return
 			}
 			bound := float64(B) + 1.01*rate*T.Seconds() + 2
-			if float64(got) > bound {
+			if prop == "C05" && float64(got) > bound {
 				c.Violation("bucket-bound-exceeded", "main.go wiring", fmt.Sprintf("%d frames reached storage within %v with throttling active; bucket %d + 1.01*%.1f/s*%.2fs + 2 = %.1f", got, T, B, rate, T.Seconds(), bound))
 				return
 			}
-			// a throttle-cut (or restarted) file holds at least one minimum-length clip of min+preview secs
+			// files vs the processor's (unthrottled) recordings
+			exp, _ := expectRecordings(cfg, cam, frames)
+			cuts := 0
 			for _, d := range files {
-				if len(d.seqs()) < minLen {
-					c.Violation("throttled-file-shorter-than-min-plus-preview", "main.go wiring", fmt.Sprintf("%s holds %d frames; with continuous motion and max-secs*fps longer than the stream every finished file was cut by the throttle and must hold >= (min-secs+preview-secs)*fps = %d", d.Name, len(d.seqs()), minLen))
-					return
+				sq := d.seqs()
+				if len(sq) == 0 {
+					continue
+				}
+				var host *expRecording
+				for k := range exp {
+					e := &exp[k]
+					if len(e.Seqs) > 0 && sq[0] >= e.Seqs[0] && sq[0] <= e.Seqs[len(e.Seqs)-1] {
+						host = e
+					}
+				}
+				consecutive := true
+				for k := 1; k < len(sq); k++ {
+					consecutive = consecutive && sq[k] == sq[k-1]+1
+				}
+				if host == nil || !consecutive || sq[len(sq)-1] > host.Seqs[len(host.Seqs)-1] {
+					if prop == "C06" {
+						c.Violation("file-not-inside-one-recording", "main.go wiring", fmt.Sprintf("%s holds %s, which is not a run of consecutive frames inside one of the processor's recordings %s", d.Name, seqsString(sq), describeRecs(exp)))
+						return
+					}
+					continue
+				}
+				cut := sq[len(sq)-1] < host.Seqs[len(host.Seqs)-1]
+				if cut {
+					cuts++
+					if len(sq) < minLen && (prop == "C06" || continuous) {
+						c.Violation("throttled-file-shorter-than-min-plus-preview", "main.go wiring", fmt.Sprintf("%s holds %d frames %s and ends before its recording does (%s): it was cut by the throttle and must hold >= (min-secs+preview-secs)*fps = %d", d.Name, len(sq), seqsString(sq), seqsString(host.Seqs), minLen))
+						return
+					}
 				}
 			}
 			c.Count("pipeline_runs", 1)
+			c.Count("throttle_cut_files", int64(cuts))
 			off, _, T2, bad2 := run(false)
 			if bad2 != "" {
 				c.Violation("pipeline-failed", "throttle off", bad2)
@@ -144,7 +226,7 @@ func TestVerif_C05Pipe(t *testing.T) {
 			c.Max("max:bound_slack_frames", int64(bound)-int64(got))
 			c.Nontrivial(vNewHash().U64(uint64(idx)).Int(got).Int(off).Sum())
 			c.Sample("wiring", func() interface{} {
-				return map[string]interface{}{"throttled_frames": got, "unthrottled_frames": off, "bound": bound, "files": len(files), "elapsed": T.String()}
+				return map[string]interface{}{"throttled_frames": got, "unthrottled_frames": off, "bound": bound, "files": len(files), "cut_files": cuts, "elapsed": T.String()}
 			})
 		})
 	}
@@ -238,6 +320,73 @@ func TestVerif_C04Pipe(t *testing.T) {
 			c.Count("pipeline_gate_runs", 1)
 			c.Count("pipeline_motion_files", int64(len(mfiles)))
 			c.Nontrivial(vNewHash().Int(idx).Int(len(mfiles)).Int(len(cfiles)).Sum())
+		})
+	}
+}
+
+// TestVerif_C04PipeRetry: storage that recovers in the middle of a motion run - the refused
+// start must be retried on the next motion frame of the same run (real CheckCanRecord / statfs).
+func TestVerif_C04PipeRetry(t *testing.T) {
+	c := vStart(t, "C04", "TestVerif_C04PipeRetry")
+	defer c.Finish()
+	scratch := vEnv("VERIF_SCRATCH", t.TempDir())
+	n := c.N(8, 64)
+	for idx := int64(0); idx < n; idx++ {
+		if !c.Mine(idx) {
+			continue
+		}
+		rng := c.RNG(idx)
+		cam := leptonCamera("lepton3", 16, 12, 9)
+		cfg := basicConfig()
+		cfg.MinSecs, cfg.MaxSecs, cfg.PreviewSecs = 1, 3, 1
+		cfg.Motion = simpleMotion(rng.Range(1, 3), 1)
+		quiet := rng.Range(3, 10)
+		run := rng.Range(30, 60)
+		frames := c10Frames(cam, strings.Repeat("f", quiet)+strings.Repeat("m", run)+strings.Repeat("f", 15))
+		gone := rng.Range(0, quiet)                                   // the output directory vanishes before the run
+		back := quiet + rng.Range(cfg.Motion.TriggerFrames+1, run-12) // and is back in the middle of it
+		c.Case(idx, func() interface{} {
+			return map[string]interface{}{"quiet_frames": quiet, "motion_run": run, "trigger_frames": cfg.Motion.TriggerFrames, "output_dir_removed_before_frame": gone, "restored_before_frame": back}
+		}, func() {
+			r, err := prepareConn(scratch, cfg, cam)
+			if err != nil {
+				c.Inconclusive("prepareConn: " + err.Error())
+				return
+			}
+			defer r.cleanup()
+			saved := r.OutDir + ".away"
+			var rx int64
+			r.serve(pacedFeed(cam, frames, 2*time.Millisecond), func(name string) {
+				if name != "conn.frame.received" {
+					return
+				}
+				k := int(atomic.AddInt64(&rx, 1)) - 1
+				if k == gone {
+					os.Rename(r.OutDir, saved)
+				}
+				if k == back {
+					os.Rename(saved, r.OutDir)
+				}
+			})
+			if r.Err != io.EOF {
+				c.Violation("pipeline-failed", "storage recovers mid-run", fmt.Sprintf("handleConn returned %v", r.Err))
+				return
+			}
+			found := false
+			var lists []string
+			for _, d := range decodeDir(r.OutDir) {
+				sq := d.seqs()
+				lists = append(lists, seqsString(sq))
+				if d.Err == "" && len(sq) > 0 && sq[0] <= back && sq[len(sq)-1] >= back {
+					found = true
+				}
+			}
+			if !found {
+				c.Violation("missing-start", "storage recovers mid-run", fmt.Sprintf("the output directory was unavailable from frame %d and back before frame %d, in the middle of a motion run (frames %d..%d): the refused start must be retried on the next motion frame, i.e. a recording containing frame %d - files: %v", gone, back, quiet, quiet+run-1, back, lists))
+				return
+			}
+			c.Count("pipeline_retry_runs", 1)
+			c.Nontrivial(vNewHash().U64(uint64(idx)).Int(gone).Int(back).Sum())
 		})
 	}
 }
